@@ -41,6 +41,11 @@ def gen_cases(ck):
                 # low counter byte wraps inside a long stream (257+ blocks)
                 iv = rb(r, 15) + b"\xf0"
                 cases.append(Case("mode %s %d %s %s %s" % (d, m, rb(r, 16).hex(), (iv + rb(r, 4)).hex(), rb(r, 16 * 300).hex()), "mode", "mode%d/%s/long-stream" % (m, d)))
+    # the same streams fed through one reused scratch block (the object must not keep pointers into caller memory)
+    for m in range(5):
+        for d in "ed":
+            for nb in (2, 3, 6):
+                cases.append(Case("modes %s %d %s %s %s" % (d, m, rb(r, 16).hex(), rb(r, 20).hex(), rb(r, 16 * nb).hex()), "mode", "mode%d/%s/reused-scratch-block" % (m, d)))
     for m in (5, 6, 7, 100, 255):
         for d in "ed":
             cases.append(Case("mode %s %d %s %s %s" % (d, m, rb(r, 16).hex(), rb(r, 20).hex(), rb(r, 32).hex()), "mode", "factory/out-of-range", True))
